@@ -23,6 +23,7 @@ KF = os.path.join(os.path.dirname(HERE), "known_findings.json")
 def main():
     args = sys.argv[1:]
     write = "--write" in args
+    prune = "--prune" in args  # drop listed cases of the given properties that were not observed (needs the .observed files of ALL tiers)
     files = [a for a in args if not a.startswith("--")]
     data = json.load(open(KF)) if os.path.exists(KF) else {"findings": [], "fixed": []}
     by_id = {f["id"]: f for f in data["findings"]}
@@ -45,6 +46,21 @@ def main():
             if f["sig"] not in ent["cases"]:
                 ent["cases"].append(f["sig"])
                 added[fid] += 1
+    if prune:
+        observed = collections.defaultdict(set)
+        for fn in files:
+            if os.path.exists(fn + ".observed"):
+                o = json.load(open(fn + ".observed"))
+                observed[o["property"]] |= set(o["observed"])
+            for f in json.load(open(fn)):
+                observed[f["prop"]].add(f["sig"])
+        for ent in data["findings"]:
+            if ent["property"] in observed and not ent.get("rule"):
+                before = len(ent["cases"])
+                ent["cases"] = [c for c in ent["cases"] if c in observed[ent["property"]]]
+                if before != len(ent["cases"]):
+                    print(f"pruned {before - len(ent['cases'])} cases from {ent['id']}")
+        data["findings"] = [e for e in data["findings"] if e.get("rule") or e["cases"] or e["property"] not in observed]
     for fid, n in sorted(added.items()):
         print(f"{n:5d} new cases -> {fid}")
     print(f"unassigned: {len(unassigned)}")
